@@ -164,7 +164,8 @@ destinations = %(all)s
 
 
 def dest_str(d):
-  return '%s:%d:%s' % tuple(d) if d[2] is not None else '%s:%d' % tuple(d[:2])
+  host = '[%s]' % d[0] if ':' in d[0] else d[0]
+  return '%s:%d:%s' % (host, d[1], d[2]) if d[2] is not None else '%s:%d' % (host, d[1])
 
 
 class Relay(evx.System):
